@@ -11,6 +11,7 @@ import (
 	"github.com/segmentio/encoding/json"
 	"verif/mc/explore"
 	"verif/mc/gen/jgen"
+	"verif/mc/props/c01"
 )
 
 const guard = 64
@@ -212,8 +213,27 @@ func sweep(c *explore.Ctx, x any, flags json.AppendFlags, orderFree bool, shape,
 	return n, rerr != nil
 }
 
+var thoroughTypes []reflect.Type
+
+// thoroughTypeList adds C01's whole quick universe of type shapes (depth 2) to the list.
+func thoroughTypeList() []reflect.Type {
+	if thoroughTypes == nil {
+		seen := map[reflect.Type]bool{}
+		for _, t := range append(append([]reflect.Type{}, typeList()...), c01.TypeList(false)...) {
+			if !seen[t] {
+				seen[t] = true
+				thoroughTypes = append(thoroughTypes, t)
+			}
+		}
+	}
+	return thoroughTypes
+}
+
 func typed(c *explore.Ctx) {
 	ts := typeList()
+	if c.Thorough() {
+		ts = thoroughTypeList()
+	}
 	t := ts[c.Choose(len(ts))]
 	dom := jgen.CachedDomain(t)
 	v := dom[c.Choose(len(dom))]
@@ -296,7 +316,7 @@ func Spec() *explore.Spec {
 	return &explore.Spec{
 		ID: "C15",
 		Families: []*explore.Family{
-			{Name: "typed", ShardDepth: 1, Body: typed, Doc: "~900 type shapes (leaves, hand-written structs, maps, wrappers, error-producing values at depth 0-2, nil embedded pointers) x boundary values x all 8 AppendFlags subsets x 17 prefixes (lengths 0,1,7,8,9,4096 and JSON-like tails such as 'e-0', '\"', '\\\\') x every spare capacity 0..n+2 (or {0,1,n-1,n,n+1,2n,64Ki}) inside a guard-patterned arena"},
+			{Name: "typed", ShardDepth: 1, Body: typed, Doc: "~900 (thorough: ~3500, all of C01's depth-2 universe) type shapes (leaves, hand-written structs, maps, wrappers, error-producing values at depth 0-2, nil embedded pointers) x boundary values x all 8 AppendFlags subsets x 17 prefixes (lengths 0,1,7,8,9,4096 and JSON-like tails such as 'e-0', '\"', '\\\\') x every spare capacity 0..n+2 (or {0,1,n-1,n,n+1,2n,64Ki}) inside a guard-patterned arena"},
 			{Name: "byte-slices", ShardDepth: 2, Body: byteSlices, Doc: "[]byte of every length 0..50 and around 3000/4096 (base64 sizing), top-level and nested, x all destinations"},
 			{Name: "escapes", ShardDepth: 2, Body: escapes, Doc: "AppendEscape / AppendUnescape x strings x all destinations"},
 		},
